@@ -147,7 +147,7 @@ def run_C01(ctx):
     spec_oracle(ctx, cases, impl, "C01 oracle")
     # extraction cross-check: the kernel's VM must agree with the extracted OCaml model
     import vmcheck
-    nvm, vmf = vmcheck.run_vm(ctx, cases, n=ctx.scale(12, 96))
+    nvm, vmf = vmcheck.run_vm(ctx, cases, n=ctx.scale(8, 96))
     for m in vmf[:2]:
         ctx.fail("corr", "extraction cross-check: vm_compute inside Coq disagrees with the extracted model", dict(check="vm", detail=m))
     ctx.k_checks["extraction-vs-vm_compute"] = (not vmf, nvm)
